@@ -21,6 +21,8 @@ type Store struct {
 	// Hook is called at the start of every store operation (scheduling point); a non-nil error fails the operation.
 	Hook func(op string) error
 	Reads []string // read operations served, for diagnostics
+	// Rejected: batches refused because they violate a uniqueness constraint of the schema (duplicate log id)
+	Rejected []string
 }
 
 func New() *Store { return &Store{} }
@@ -75,6 +77,7 @@ func (s *Store) InsertLogs(ctx context.Context, logs ...*ledger.ChainedLog) erro
 	}
 	for _, l := range logs {
 		if ids[l.ID.String()] {
+			s.Rejected = append(s.Rejected, fmt.Sprintf("log id %s already exists", l.ID))
 			return fmt.Errorf("duplicate key value violates unique constraint logs(id): %s", l.ID)
 		}
 		ids[l.ID.String()] = true
